@@ -45,6 +45,8 @@
 ; channels and timers (A-CHAN / A-STD ghost state)
 ;; ghost closed (Array Int Bool)
 ;; ghost nsent Int
+; the last value handed over on a channel of syncs (main loop -> worker), by channel
+;; ghost lastSent_blockWithProof (Array Int Int)
 ;; ghost timerDelay (Array Int Int)
 ;; ghost timerFn (Array Int Int)
 ;; ghost timerStopped (Array Int Bool)
